@@ -122,6 +122,10 @@ class Model:
         self.K = bpfvm.Kernel()
         self.disp, self.gen_note = fastsim.build_dispatcher(self.K)
         seam = self.gen_note is not None
+        # a different group built earlier in the same process: nothing of it
+        # may leak into the group under test
+        self.decoy = build_group("w2r2-mixed" if layout != "w2r2-mixed"
+                                 else "w1r2-mixed", self.K, seam)
         self.group = build_group(layout, self.K, seam)
         if registered:
             self.disp.register(self.index, self.group)
@@ -155,9 +159,15 @@ class Model:
             self.kernel_note = ("kernel_load_failed: " + e.log[-400:])
             rd.close()
             return
+        self.build_mismatch = None
         if rg.code != self.group.code and \
                 len(rg.code) != len(self.group.code):
-            raise Internal("real/simulated builds differ in length")
+            # the same declaration built twice gives different programs:
+            # state leaks between sync groups of one process
+            self.build_mismatch = (len(self.group.code) // 8,
+                                   len(rg.code) // 8)
+            rd.close()
+            return
         if self.registered:
             rd.register(self.index, rg)
         self.rdisp, self.rgroup = rd, rg
@@ -758,6 +768,14 @@ def work(item, res):
                     m.kernel_note, kf=KF_NOTGEN,
                     sig=core.digest(["notloaded", m.kernel_note[:60]]),
                     note="the kernel rejects the generated program")
+        if getattr(m, "build_mismatch", None) and prop == "C21":
+            res.violation(
+                dict(case0, events=[], check="rebuild"),
+                "identically declared groups compile to the same program",
+                "%d vs %d instructions" % m.build_mismatch,
+                sig=core.digest(["rebuild"]),
+                note="a second group's program differs: state leaks between "
+                     "sync groups")
         for viol in sterile_check(m):
             if viol[0] == prop:
                 res.violation(dict(case0, events=[], check="sterile"),
